@@ -59,6 +59,7 @@ Step(s, e, i) ==
     [] e.ev = "corig" -> OnOrig(s0, e, i)
     [] e.ev = "cvec" -> OnC(s0, e)
     [] e.ev = "mvec" -> OnM(s0, e)
+    [] e.ev = "mvecs" -> OnM(s0, e)        \* tables whose descriptor values have no reference encoding: structure only
     [] OTHER -> s
 
 Next == /\ l <= Len(Trace)
